@@ -256,8 +256,9 @@ Definition end_state (s s' : state) (wid : N) (u : string) (c : data) (ok : bool
 Theorem writer_runs_model : forall (B : behaviour F) dir path content wid u s,
   (* the writer id is unused *)
   getN wid (s_w s) = None -> getN wid (s_ino s) = None ->
-  (* os.CreateTemp: a successful creation returns a NEW name of the temporary form (O_EXCL, pattern) *)
-  (forall h d p f, b_create F B h d p = (f, None) ->
+  (* os.CreateTemp (asked, first of all calls, for [dir] and the generated pattern): a successful creation
+     returns a NEW name of the temporary form (O_EXCL; os.prefixAndSuffix, see C14_gen_created_name_is_temp) *)
+  (forall f, b_create F B [] dir gen_temp_file_pattern = (f, None) ->
       is_temp (nm (name f)) = true /\ getS (nm (name f)) (s_dir s) = None) ->
   (* the destination is the key of the URL *)
   nm path = key sha u ->
@@ -265,11 +266,9 @@ Theorem writer_runs_model : forall (B : behaviour F) dir path content wid u s,
   exists s', exec s (events F name wid u (data_of_bytes content) nm false (fst r)) = Some s' /\
              end_state s s' wid u (data_of_bytes content) (snd r).
 Proof.
-  intros B dir path content wid u s Gw Gi HC HP r.
+  intros B dir path content wid u s Gw Gi HC0 HP r.
   pose proof (writer_steps F name B dir path content) as R. fold r in R.
   set (c := data_of_bytes content) in *.
-  assert (forall f, b_create F B [] dir gen_temp_file_pattern = (f, None) ->
-            is_temp (nm (name f)) = true /\ getS (nm (name f)) (s_dir s) = None) as HC0 by (intros; eapply HC; eassumption).
   (* the first call of the run is the creation, answered by the behaviour on the empty history *)
   assert (forall f r0 l, fst r = CCreate dir gen_temp_file_pattern (f, r0) :: l ->
             b_create F B [] dir gen_temp_file_pattern = (f, r0)) as First.
